@@ -1301,6 +1301,7 @@ package kcache
         (not (= {s.readych} vnil)) (not (= {s.refilterch} vnil)) (not (= {s.outch} vnil)) (not (= {s.filter} vnil))
         (not {closed(s.readych)}) (not {closed(s.outch)}) (not (= {s.readych} {s.outch}))
         (=> {s.deferReady} (rejectsAll {s.filter})))
+  at go(run) assert [the-private-cache-watches-the-subscriptions-own-lifecycle] (= {s.lc} {lc})
   ensures [is-filter-subscription] (and (not (= result vnil)) (= (dyntype result) |ty!*kcache.filterSubscription|) (= (|F!kcache.filterSubscription!parent| result) {parent}))
 @*/
 
